@@ -3,6 +3,8 @@ package main
 import (
 	"go/ast"
 	"go/token"
+	"os"
+	"path/filepath"
 	"strings"
 )
 
@@ -436,9 +438,11 @@ func c07Guards(fs *Facts, f *File) {
 //
 //	if t.IsContentTypeChanged() { deleteTreasureFromBeacons; if type != void { addTreasureToBeacons } }
 //	else if t.IsExpirationTimeChanged() { delete from both expiration beacons; if exp != 0 { addToExpirationTimeBeacon } }
-func c07Save(fs *Facts, f *File) {
-	fd := f.Func("swamp", "SaveFunction")
-	if fd == nil {
+func c07Save(fs *Facts, f0 *File) {
+	fd0 := f0.Func("swamp", "SaveFunction")
+	// (one level of helper calls resolved: a `dropFromPair(asc, desc, key)` in place of the two deletes is the same code)
+	f, fd := c07Inlined(f0, "swamp", "SaveFunction", c07SaveVocabulary...)
+	if fd == nil || fd0 == nil {
 		return
 	}
 	c07Canon(fd, []string{"s", "t", "guardID", "existedTreasureObj", "wi", "inMem", "wi", "inMem"})
@@ -451,7 +455,7 @@ func c07Save(fs *Facts, f *File) {
 	if modified == nil || len(modified.Body.List) == 0 {
 		return
 	}
-	where := c07At(c07Swamp, f, modified)
+	where := c07At(c07Swamp, f0, fd0)
 	first, ok := modified.Body.List[0].(*ast.IfStmt)
 	if !ok || f.Str(first.Cond) != "t.IsContentTypeChanged()" {
 		return
@@ -501,6 +505,8 @@ func c07Save(fs *Facts, f *File) {
 				strings.Contains(fn, ".SortBy") || strings.HasPrefix(fn, "s.buildBeacon") || strings.HasSuffix(fn, "Beacon.Reset") ||
 				strings.HasSuffix(fn, "BeaconASC.Reset") || strings.HasSuffix(fn, "BeaconDESC.Reset") {
 				other++
+			} else if strings.HasPrefix(fn, "s.") && strings.Count(fn, ".") == 1 && !c07SaveHarmless[strings.TrimPrefix(fn, "s.")] {
+				other++ // a method of the swamp this extractor does not know: it may touch an index ("no" needs a closed world)
 			}
 		}
 	}
@@ -652,7 +658,26 @@ func c07Flags(fs *Facts, f *File) {
 		!f.Contains(f.Func("treasure", "SetExpirationTime").Body, "t.expirationTimeChanged = true") {
 		return
 	}
-	fs.Tri("typeChangeDetected", TriOf(setInSetter > 0), c07At(c07Treasure, f, firstSetter))
+	// "no" only in a closed world: no SetContent… setter mentions the flag, nor calls another method of the treasure
+	// (through which it could be raised)
+	tcd := TriOf(setInSetter > 0)
+	if setInSetter == 0 {
+		for _, d := range f.AST.Decls {
+			fd, ok := d.(*ast.FuncDecl)
+			if !ok || fd.Body == nil || !strings.HasPrefix(fd.Name.Name, "SetContent") {
+				continue
+			}
+			if f.Contains(fd.Body, "contentTypeChanged") {
+				tcd = Unknown
+			}
+			for _, c := range f.CallsSuffix(fd.Body, "") {
+				if fn := f.Str(c.Fun); strings.HasPrefix(fn, "t.") && fn != "t.Guard.CanExecute" && !strings.HasPrefix(fn, "t.mu.") {
+					tcd = Unknown
+				}
+			}
+		}
+	}
+	fs.Tri("typeChangeDetected", tcd, c07At(c07Treasure, f, firstSetter))
 	if sv := f.Func("treasure", "SetContentVoid"); sv != nil {
 		c07Canon(sv, []string{"t", "guardID"})
 		src := f.Str(sv.Body)
@@ -665,7 +690,23 @@ func c07Flags(fs *Facts, f *File) {
 			fs.Tri("setVoidClearsTyped", No, c07At(c07Treasure, f, sv))
 		}
 	}
-	fs.Tri("flagsSticky", TriOf(cleared == 0), c07At(c07Treasure, f, f.Func("treasure", "SetExpirationTime")))
+	// the flags are cleared nowhere in the package
+	sticky := TriOf(cleared == 0)
+	if ents, err := os.ReadDir(filepath.Join(repoRoot, filepath.Dir(c07Treasure))); err != nil {
+		sticky = Unknown
+	} else if cleared == 0 {
+		for _, e := range ents {
+			nm := e.Name()
+			if e.IsDir() || !strings.HasSuffix(nm, ".go") || strings.HasSuffix(nm, "_test.go") || nm == filepath.Base(c07Treasure) {
+				continue
+			}
+			src, err := os.ReadFile(filepath.Join(repoRoot, filepath.Dir(c07Treasure), nm))
+			if err != nil || strings.Contains(string(src), "expirationTimeChanged") || strings.Contains(string(src), "contentTypeChanged") || strings.Contains(string(src), "contentChanged") {
+				sticky = Unknown
+			}
+		}
+	}
+	fs.Tri("flagsSticky", sticky, c07At(c07Treasure, f, f.Func("treasure", "SetExpirationTime")))
 }
 
 // the gateway hands the window and the three record timestamps on with their nanosecond part
@@ -785,3 +826,11 @@ func c07WindowFact(fs *Facts, f *File, fd *ast.FuncDecl, checked bool) {
 		fs.Tri("windowBoundsChecked", No, c07At(c07Beacon, f, fd))
 	}
 }
+
+// the functions the shapes of SaveFunction name
+var c07SaveVocabulary = []string{"addTreasureToBeacons", "deleteTreasureFromBeacons", "deleteTreasureIfBeaconInitialized",
+	"addToKeyBeacon", "addToExpirationTimeBeacon", "addToUpdateTimeBeacon", "addToCreationTimeBeacon", "addToValueBeacon",
+	"notifyBucketsInsert", "notifyBucketsUpdate", "notifyBucketsDelete", "sendEventToHydra", "sendSwampInfo", "fileWriterHandler", "buildBeacon"}
+
+// methods of the swamp that SaveFunction's modified branch calls and that do not touch an ordered index
+var c07SaveHarmless = map[string]bool{"notifyBucketsUpdate": true, "sendEventToHydra": true, "fileWriterHandler": true, "sendSwampInfo": true}
